@@ -157,7 +157,8 @@ class Ctx:
                            "repo_head": git_head(REPO), "verif_head": git_head(VERIF)})
         with open(path, "w") as fh:
             json.dump(replay_obj, fh, indent=1)
-        self.violations.append((signature, path, text))
+        if not any(pth == path for _, pth, _ in self.violations):
+            self.violations.append((signature, path, text))
 
     def finish(self):
         ev = {
